@@ -410,7 +410,11 @@ func pureBlock(b *ssa.BasicBlock) bool {
 		switch x := ins.(type) {
 		case ssa.CallInstruction:
 			if _, isB := x.Common().Value.(*ssa.Builtin); !isB {
-				return false
+				switch calleeName(x.Common()) {
+				case "errors.Is", "errors.As", "os.IsNotExist", "os.IsExist":
+				default:
+					return false
+				}
 			}
 		case *ssa.Store:
 			if _, isAlloc := rootValue(x.Addr).(*ssa.Alloc); !isAlloc {
